@@ -13,6 +13,22 @@ CHECKS = {
         "note": "Trusted: Router.tla/RouterSys.tla as transcription of rumqttd/src/router (bound step by step by trace validation of the real router with a full state projection), TLC, the verif hooks that step the router single-threaded, the scripted clients of the harness. Exhaustive only for the small configurations; production constants (window 100, buffer 200) sampled by validated traces. Topic aliases, subscription ids, message expiry, segment eviction are not modelled here.",
         "technique": "TLC model checking of RouterSys.tla + TLC trace validation (state projection per step, invariants on every trace state) of the real router stepped through TLC-generated and seeded schedules",
     },
+    "C03": {
+        "bins": ["router_run"], "bins_small": ["router_run"],
+        "category": "model_checking",
+        "text": "Router.tla models every unwrap/expect/index/assert of the routing core that an input can reach as an explicit `panicked` flag. TLC explores exhaustively all interleavings of connects (incl. client-id takeover and slab-key reuse), subscribes, publishes, arbitrary acknowledgements from an adversary, link closes and raw Ready/Disconnect/DeviceData events for live, removed and never-registered ids, and checks NoPanic, SlabsAligned, ReadyqSound. TLC-generated schedules with three adversaries, persistent and clean sessions and stale events are executed on the real router (debug assertions on) and validated step by step; a panic of the real router is a violation whatever the model says. Beyond the model, seeded schedules with shared subscriptions, Unicode/odd topics and filters, invalid client ids, wills, Shadow requests and unsolicited acks run on the real router and must end with a fresh client pair still being served (liveness probe).",
+        "design_ref": "DESIGN.md section 6 / C03",
+        "note": "Trusted: Router.tla/RouterSys.tla as transcription of rumqttd/src/router (bound step by step by trace validation of the real router with a full state projection), TLC, the verif hooks that step the router single-threaded, the scripted clients of the harness. Exhaustive only for the small configurations; production constants sampled by validated traces. Topic aliases, subscription ids, message expiry, segment eviction are not modelled here.",
+        "technique": "TLC model checking of RouterSys.tla + TLC trace validation (state projection per step, invariants on every trace state) of the real router stepped through TLC-generated and seeded schedules",
+    },
+    "C08": {
+        "bins": ["router_run"], "bins_small": ["router_run"],
+        "category": "model_checking",
+        "text": "RouterSys.tla with persistent and clean sessions of the same client id over several network connections (resume, takeover, alternating clean flags), the graveyard, rewind of requests to the oldest unacknowledged forward: TLC checks SessionPresentRule, CleanStartsEmpty, SubMapConsistent, NoLostRequest, DeliveredExactly (what was forwarded and not rewound equals the log between subscription start and cursor, so unacknowledged messages are sent again and acknowledged ones are not), NoSpurious and QuiescentComplete (messages accepted while away are delivered).",
+        "design_ref": "DESIGN.md section 6 / C08",
+        "note": "Trusted: Router.tla/RouterSys.tla as transcription of rumqttd/src/router (bound step by step by trace validation of the real router with a full state projection), TLC, the verif hooks that step the router single-threaded, the scripted clients of the harness. Exhaustive only for the small configurations; production constants sampled by validated traces. Topic aliases, subscription ids, message expiry, segment eviction are not modelled here.",
+        "technique": "TLC model checking of RouterSys.tla + TLC trace validation (state projection per step, invariants on every trace state) of the real router stepped through TLC-generated and seeded schedules",
+    },
     "C06": {
         "bins": ["router_run"], "bins_small": ["router_run"],
         "category": "model_checking",
